@@ -28,23 +28,25 @@ Lemma fle_refl ts : fle ts ts. Proof. split; auto. Qed.
 Lemma fle_trans a b c : fle a b -> fle b c -> fle a c.
 Proof. intros [H1 H2] [H3 H4]. split; [lia|]. intros id z H. auto. Qed.
 
-Lemma fview_ended (s : ost) id z : Inv s -> fview (trials s) id = Some z -> In id (end_order s).
+Lemma fview_finalat (s : ost) id z : fview (trials s) id = Some z -> finalat s id.
 Proof.
-  intros HI Hc. unfold fview in Hc. destruct (nth_error (trials s) id) as [t|] eqn:Et; [|discriminate].
+  intros Hc. unfold fview in Hc. destruct (nth_error (trials s) id) as [t|] eqn:Et; [|discriminate].
   destruct (is_final (t_status t)) eqn:Es; [|discriminate].
-  assert (Hlt : id < length (trials s)) by (apply nth_error_Some; congruence).
-  destruct (I_cover _ HI id Hlt) as [H|[H|H]]; [| |exact H].
-  - pose proof (I_on_run _ HI _ H) as Hr. unfold stat in Hr. rewrite Et in Hr. simpl in Hr.
-    inversion Hr as [Hr']. rewrite Hr' in Es. discriminate.
-  - destruct (I_rq_wait _ HI _ H) as (st & Hs & [Hw|Hw]); unfold stat in Hs; rewrite Et in Hs; simpl in Hs;
-      inversion Hs as [Hs']; rewrite Hs', Hw in Es; discriminate.
+  exists (t_status t). split; [unfold stat; now rewrite Et|]. unfold is_final in Es. destruct (t_status t); try discriminate; [now left|now right].
 Qed.
+Lemma finalat_not_waiting (s : ost) id : Inv s -> finalat s id -> ~ In id (onids s) /\ ~ In id (retryq s).
+Proof.
+  intros HI (st & Hs & Hf). split; intros H.
+  - pose proof (I_on_run _ HI _ H) as Hr. rewrite Hs in Hr. inversion Hr; subst. destruct Hf; discriminate.
+  - destruct (I_rq_wait _ HI _ H) as (st' & Hs' & Hw). rewrite Hs in Hs'. inversion Hs'; subst. eapply waiting_not_final; eauto.
+Qed.
+(* without a crash in between, every ended trial is also listed in end_order: LStrong.v *)
 
 (* a COMPLETED or FAILED trial never changes status or score again *)
 Theorem step_fle c (s : ost) o : abort_early c = false -> Inv s -> fle (trials s) (trials (fst (stepf c s o))).
 Proof.
   intros Hab HI.
-  pose proof (fun id z => fview_ended s id z HI) as Hcv.
+  pose proof (fun id z H => finalat_not_waiting s id HI (fview_finalat s id z H)) as Hcv.
   destruct o as [tu|id f|id es f|]; simpl.
   - unfold do_create. destruct (alookup tu (ongoing s)); [destruct (trial_view vdef (trials s) t); apply fle_refl|].
     destruct (rev (retryq s)) as [|idr rq'] eqn:Erq.
@@ -55,8 +57,8 @@ Proof.
       apply nth_error_Some. congruence.
     + simpl. split; [now rewrite length_upd|]. intros id z Hc.
       assert (id <> idr).
-      { intros ->. pose proof (Hcv _ _ Hc) as He. pose proof (rev_cons_inv _ _ _ Erq) as Hrq.
-        destruct (I_part _ HI) as (_ & _ & _ & _ & _ & Hbc). apply (Hbc idr); [|exact He]. rewrite Hrq. apply in_or_app. right. now left. }
+      { intros ->. pose proof (Hcv _ _ Hc) as [_ He]. pose proof (rev_cons_inv _ _ _ Erq) as Hrq.
+        apply He. rewrite Hrq. apply in_or_app. right. now left. }
       unfold fview in *. rewrite nth_upd_other; [exact Hc|congruence].
   - unfold do_update. destruct (nth_error (trials s) id) as [t|] eqn:Et; simpl; [|apply fle_refl].
     split; [now rewrite length_upd|]. intros j z Hc. unfold fview in *.
@@ -67,7 +69,7 @@ Proof.
     destruct (nth_error (trials s) id) as [t0|] eqn:Et0; [|apply fle_refl].
     assert (Hgen : forall t', fle (trials s) (upd id (fun _ => t') (trials s))).
     { intros t'. split; [now rewrite length_upd|]. intros j z Hc.
-      assert (j <> id). { intros ->. destruct (on_facts _ _ HI Eex) as (_ & _ & Hne). apply Hne. eapply Hcv; eauto. }
+      assert (j <> id). { intros ->. destruct (Hcv _ _ Hc) as [Hne _]. now apply Hne. }
       unfold fview in *. rewrite nth_upd_other; [exact Hc|congruence]. }
     rewrite Hab.
     repeat match goal with
@@ -77,7 +79,7 @@ Proof.
     | |- context [if streak ?a ?b ?d ?e then _ else _] => destruct (streak a b d e)
     end; simpl; apply Hgen.
   - split; [rewrite from_disk_length; [lia|apply (I_disk_len _ HI)]|].
-    intros id z Hc. pose proof (Hcv _ _ Hc) as He. pose proof (I_d_fin _ HI _ He) as Hd.
+    intros id z Hc. pose proof (I_d_fin _ HI _ (fview_finalat s id z Hc)) as Hd.
     unfold fview in *. destruct (nth_error (trials s) id) as [t|] eqn:Et; [|discriminate]. simpl in Hd.
     rewrite (from_disk_nth _ _ _ _ _ Et (eq_sym Hd)). simpl. exact Hc.
 Qed.
